@@ -345,6 +345,40 @@ CHECKS = {
          "not exercised (such a device cannot join a sync group)",
          "runtime differential monitoring of two implementations against a "
          "struct-based oracle", "4 C19"),
+ "C21": ("model_checking",
+         "Breadth-first exploration (depth 8 quick / 16 thorough, several "
+         "start counters, 8 group layouts with 0-3 direct/FMMU writer "
+         "datagrams) of the abstract state (counter low byte, <= 3 in-flight "
+         "frames with index byte, writer commands and counter classes, "
+         "output-enabled flag); every transition executes the real "
+         "dispatcher and group bytecode in the reference machine with a "
+         "PROG_ARRAY model, every 50th is replayed in the kernel and must "
+         "agree. Per-transition monitors check the re-activation rules and "
+         "that no frame is sent back with enabled writers unless the group "
+         "program ran in that pass.",
+         "exhaustive only over the abstracted state, the bound and the "
+         "layouts generated; the reference machine is validated against the "
+         "kernel on the replayed sample",
+         "bounded explicit-state exploration where every transition is a "
+         "real bytecode execution, with per-step runtime monitors",
+         "4 C21/C22"),
+ "C22": ("model_checking",
+         "Same engine as C21 for registered groups, groups without a "
+         "registered program and group indices >= MAX_PROGS, plus random "
+         "foreign frames (other ethertypes, first datagram not the "
+         "identification NOP, short frames, garbage): the action must be TX "
+         "or PASS, foreign frames must pass byte-identical without touching "
+         "the counters, frames of an unregistered group must reach user "
+         "space with the ethertype of the identification datagram within a "
+         "bounded number of passes, and for a registered group never three "
+         "consecutive frames are sent back to the bus without running the "
+         "group program.",
+         "weaker readings chosen where the statement is ambiguous (no "
+         "re-injection for unregistered groups; superfluous frames handed "
+         "to user space do not extend the run), see DESIGN",
+         "bounded explicit-state exploration where every transition is a "
+         "real bytecode execution, with per-step runtime monitors",
+         "4 C21/C22"),
 }
 
 NOT_YET = "check not built yet in this round (design in DESIGN.md section 4)"
